@@ -1,5 +1,6 @@
 import Verif.Model.Cli
 import Verif.Proofs.CliFs
+import Verif.Props.C20
 /-!
 # Helper lemmas for C19: the concatenating reader, lexical paths, frame of a task sequence
 -/
@@ -319,9 +320,46 @@ theorem joinP_normal (o : P) (r : List Bytes) (ho : ∀ c ∈ o.cs, isNormal c =
 
 /-! ## frame of a sequence of tasks -/
 
+/-- a sync task copies one file (`--sync` together with `--bundle` can merge several: excluded) -/
+def SyncSingle (t : Task) : Prop := t.sync = true → t.srcs.length ≤ 1
+
+/-- one complete task changes nothing but its destination: `dst.bak` did not exist when it was used
+    (otherwise the task is refused) and is gone at the end -/
+theorem get_task_untouched (cfg : Cfg) (w : Writes) (t : Task) (fs : Fs) (q : Path)
+    (hq : q ≠ t.dst) (hs : SyncSingle t) :
+    (run (minifyOps cfg w t fs) fs).get q = fs.get q := by
+  by_cases hqb : q = bak t.dst
+  · subst hqb
+    cases hr : renamed t fs with
+    | false =>
+      have := Verif.Props.C20.bak_untouched cfg w t fs (minifyOps cfg w t fs).length hr
+      simpa [Verif.Props.C20.crashState] using this
+    | true =>
+      obtain ⟨hmem, _, hnone, _⟩ := Verif.Props.C20.renamed_facts t fs hr
+      by_cases hn : noop t = true
+      · simp [minifyOps, hn, run]
+      · have hn' : noop t = false := by simpa using hn
+        cases hsy : t.sync with
+        | false => rw [Verif.Props.C20.done_no_bak cfg w t fs hn' hsy hr, hnone]
+        | true =>
+          -- a single-source sync task whose source is the destination is a no-op
+          exfalso
+          have hlen := hs hsy
+          have : t.srcs.head? = some t.dst := by
+            match hsr : t.srcs, hmem, hlen with
+            | [s], hmem, _ => simp at hmem; simp [hmem]
+            | [], hmem, _ => simp at hmem
+            | _ :: _ :: _, _, hlen => simp at hlen
+          simp [noop, hsy, this] at hn'
+  · apply get_run_untouched
+    intro op ho hq'
+    rcases touches_minifyOps _ _ _ _ op ho q hq' with e | e
+    · exact hq e
+    · exact hqb e
+
 theorem get_runTasks_untouched (lib : Bytes → Bytes → Option Bytes) (cfg : Cfg) (q : Path) :
     ∀ (ts : List (Task × Bytes)) (fs : Fs) (so : Bytes) (fails : Nat),
-      (∀ t ∈ ts, q ≠ t.1.dst ∧ q ≠ bak t.1.dst) →
+      (∀ t ∈ ts, q ≠ t.1.dst ∧ SyncSingle t.1) →
       (runTasks lib cfg ts fs so fails).1.get q = fs.get q := by
   intro ts
   induction ts with
@@ -331,12 +369,35 @@ theorem get_runTasks_untouched (lib : Bytes → Bytes → Option Bytes) (cfg : C
     obtain ⟨tk, mime⟩ := t
     simp only [runTasks]
     rw [ih _ _ _ (fun x hx => h x (List.mem_cons_of_mem _ hx))]
-    apply get_run_untouched
-    intro op ho hq
     have := h (tk, mime) (List.mem_cons_self ..)
-    rcases touches_minifyOps _ _ _ _ op ho q hq with e | e
-    · exact this.1 e
-    · exact this.2 e
+    exact get_task_untouched _ _ _ _ _ this.1 this.2
+
+/-- no two tasks of a list share a destination file -/
+theorem dupDst_false (ts : List TaskP) (h : dupDst ts = false) :
+    ∀ t1 ∈ ts, ∀ t2 ∈ ts, t1.dst.isSome → t1.dst = t2.dst → t1 = t2 := by
+  induction ts with
+  | nil => intro t1 h1; simp at h1
+  | cons t r ih =>
+    simp only [dupDst, Bool.or_eq_false_iff, Bool.and_eq_false_iff] at h
+    obtain ⟨hh, hr⟩ := h
+    intro t1 h1 t2 h2 hsome heq
+    rcases List.mem_cons.mp h1 with e1 | e1 <;> rcases List.mem_cons.mp h2 with e2 | e2
+    · rw [e1, e2]
+    · exfalso
+      subst e1
+      rcases hh with hh | hh
+      · rw [hsome] at hh; cases hh
+      · have : r.any (fun u => decide (u.dst = t1.dst)) = true :=
+          List.any_eq_true.mpr ⟨t2, e2, by simp [heq]⟩
+        rw [this] at hh; cases hh
+    · exfalso
+      subst e2
+      rcases hh with hh | hh
+      · rw [← heq, hsome] at hh; cases hh
+      · have : r.any (fun u => decide (u.dst = t2.dst)) = true :=
+          List.any_eq_true.mpr ⟨t1, e1, by simp [heq]⟩
+        rw [this] at hh; cases hh
+    · exact ih hr t1 e1 t2 e2 hsome heq
 
 /-- the verdicts of the tasks, in order -/
 def taskOks (lib : Bytes → Bytes → Option Bytes) (cfg : Cfg) : List (Task × Bytes) → Fs → List Bool
